@@ -40,6 +40,13 @@ Definition in_range (nr nc : nat) (e : entry3) : bool := Nat.ltb (e_row e) nr &&
 (* coo_matrix(..., shape=(nr, nc)): ValueError when an index exceeds the shape *)
 Definition coo_checked (nr nc : nat) (es : list entry3) : result (nat * nat * list entry3) :=
   if forallb (in_range nr nc) es then ROk (nr, nc, es) else RErr E_VALUE.
+(* _check_coordinates (table.py:5427-5432, called by coo_arrays_to_sparse and list_list_to_sparse
+   when a shape is given): a coordinate outside the shape described by the ids is a
+   TableException, raised before scipy sees it *)
+Definition coo_checked_ids (nr nc : nat) (es : list entry3) : result (nat * nat * list entry3) :=
+  if forallb (in_range nr nc) es then ROk (nr, nc, es) else RErr E_TABLE.
+(* max([...], default=-1) + 1 *)
+Definition dim_of (l : list nat) : nat := match l with [] => 0 | _ => S (fold_right Nat.max 0 l) end.
 
 (* ------------------------------------------------------------------ helpers *)
 Definition row_entries := list (nat * Z).            (* (column, value) of one row *)
@@ -91,8 +98,8 @@ Definition to_coo (inp : cinput) (shape : nat * nat) : result (nat * nat * list 
       | r :: _ => if rectb (length r) m then ROk (length m, length r, scan m) else RErr E_VALUE
       end
   | InTriples l =>
-      match l with [] => empty | _ => coo_checked (fst shape) (snd shape) l end   (* 666, 5439-5472 *)
-  | InDict l => coo_checked (fst shape) (snd shape) l                             (* 650-654, 5640-5668 *)
+      match l with [] => empty | _ => coo_checked_ids (fst shape) (snd shape) l end   (* list_list_to_sparse *)
+  | InDict l => coo_checked_ids (fst shape) (snd shape) l        (* dict_to_sparse -> coo_arrays_to_sparse *)
   | InRowArrays rows =>
       match rows with
       | [] => empty
@@ -103,18 +110,15 @@ Definition to_coo (inp : cinput) (shape : nat * nat) : result (nat * nat * list 
       | [] => empty
       | _ =>
         let keys := concat rows in
-        match keys with
-        | [] => RErr E_VALUE                    (* max() of an empty sequence, 5610 *)
-        | _ =>
-          let nr_k := S (nmax (map e_row keys)) in
-          let nc_k := S (nmax (map e_col keys)) in
-          if Nat.ltb nc_k nr_k then                      (* n_rows > n_cols: the dicts are columns *)
-            let n_rows := Nat.max nr_k (fst shape) in
-            coo_checked n_rows (length rows) (flatten_col_from 0 rows)
-          else
-            let n_cols := Nat.max nc_k (snd shape) in
-            coo_checked (length rows) n_cols (flatten (map (map (fun e => (e_col e, e_val e))) rows))
-        end
+        (* vectors without any entry describe zeros: max(..., default=-1) + 1 *)
+        let nr_k := dim_of (map e_row keys) in
+        let nc_k := dim_of (map e_col keys) in
+        if Nat.ltb nc_k nr_k then                      (* n_rows > n_cols: the dicts are columns *)
+          let n_rows := Nat.max nr_k (fst shape) in
+          coo_checked n_rows (length rows) (flatten_col_from 0 rows)
+        else
+          let n_cols := Nat.max nc_k (snd shape) in
+          coo_checked (length rows) n_cols (flatten (map (map (fun e => (e_col e, e_val e))) rows))
       end                                                                          (* 639-643, 5573-5637 *)
   | InSparseRows rows =>
       match rows with
@@ -138,10 +142,8 @@ Definition to_dense (inp : cinput) (shape : nat * nat) : result (nat * nat * mat
 Inductive mdin :=
 | MdNone                               (* None *)
 | MdMap (kv : list Tree)               (* a dict; kv = its items as trees *)
-| MdOther (truthy : bool) (t : Tree).  (* anything else: '', 0, [] are falsy; 'x', [1] are truthy *)
+| MdOther (truthy : bool) (t : Tree).  (* anything else; its truth value no longer matters *)
 
-Definition falsy (e : mdin) : bool :=
-  match e with MdNone => true | MdMap [] => true | MdMap _ => false | MdOther tr _ => negb tr end.
 Definition is_none (e : mdin) : bool := match e with MdNone => true | _ => false end.
 (* None or an empty mapping *)
 Definition is_blank (e : mdin) : bool := match e with MdNone => true | MdMap [] => true | _ => false end.
@@ -150,12 +152,13 @@ Definition dict_tree (kv : list Tree) : Tree := L [I 6; L kv].        (* tables.
 Definition md_entry_tree (e : mdin) : Tree :=
   match e with MdMap kv => dict_tree kv | _ => dict_tree [] end.
 
-(* table.py:500-522: metadata whose entries are all empty becomes None, unless its size is wrong *)
+(* table.py:500-524: metadata whose entries are all None or an empty mapping becomes None, unless
+   its size is wrong; other falsy objects ('', 0, []) are not "empty" (repair e7f3397a) *)
 Definition norm_md (md : option (list mdin)) (n_ids : nat) : option (list mdin) :=
   match md with
   | None => None
   | Some l =>
-      if negb (Nat.eqb (length l) 0) && forallb falsy l && Nat.eqb (length l) n_ids then None else Some l
+      if forallb is_blank l && Nat.eqb (length l) n_ids then None else Some l
   end.
 
 (* _cast_metadata, table.py:674-714: no entry holds anything (None or an empty mapping) -> None,
